@@ -2,20 +2,20 @@ package main
 
 import (
 	"fmt"
-	"strings"
 	"go/token"
 	"go/types"
 	"sort"
+	"strings"
 
 	"golang.org/x/tools/go/ssa"
 )
 
 func init() {
 	register(&ruleSet{
-		id:         "C08",
-		title:      "calls and matches leave no residue",
-		run:        runC08,
-		decided:    "frames are balanced on every path after which the run can continue (frame typestate over all functions of package lang, push/pop primitives discovered from their stores to Evaluator.stackTop); only the two primitives store stackTop; unknown names are created in the innermost frame and globals in the root frame; the depth test precedes the push; parameters are bound by position to fresh cells, missing ones to null." +
+		id:    "C08",
+		title: "calls and matches leave no residue",
+		run:   runC08,
+		decided: "frames are balanced on every path after which the run can continue (frame typestate over all functions of package lang, push/pop primitives discovered from their stores to Evaluator.stackTop); only the two primitives store stackTop; unknown names are created in the innermost frame and globals in the root frame; the depth test precedes the push; parameters are bound by position to fresh cells, missing ones to null." +
 			" setGlobal is only used for the interpreter's $-names; every pushed frame is one deeper than its parent; control-flow signals are never rebuilt into other errors; the return slot is written by the return arm and read by callFunction only." +
 			" The list of evaluated argument expressions is made per call and not kept.",
 		notDecided: "value semantics of return beyond the binding rule, behaviour of recursion as such.",
@@ -29,8 +29,12 @@ func runC08(c *Ctx) {
 	c08R3(c, m, "R3")
 	c08R4(c)
 	exprListFresh(c, "R4")
+	c.shared("R9", "C14/R6", "a call to a user function runs that function: the program's functions are installed into the root frame after the runtime functions, so a user function named like a builtin is the one that is called", keyHas("program-functions-after-runtime-functions", "installed-by-constructor program functions"), func(s *Ctx) { evaluatorConstruction(s, "R6") })
+	if es := c.P.LangFunc("(*Evaluator).evalStatement"); es != nil {
+		c.shared("R10", "C07/R1", "a return inside a loop ends the call with that value: every loop consumes break and continue only and passes every other outcome of its body (the return signal included) on unchanged", keyHas("loop-bod"), func(s *Ctx) { c07LoopConsumption(s, es) })
+	}
 	c.shared("R8", "C19/R4", "names bound by a match pattern are those of the alternative that matched: the binding map is made per alternative, so a name bound by a failed alternative neither shadows nor overwrites an outer variable", keyHas("bindings-per-alternative"), runC19)
-	c.shared("R7", "C09/R3", "arguments are passed by value: the copy of a null argument is a plain null without the link to the object it was read from (through which an assignment to the parameter would create a member in the caller's object)", keyHas("copy Value", "copy-on-insert ExprCall.Args"), c09R3)
+	c.shared("R7", "C09/R3", "arguments are passed by value: the copy of a null argument is a plain null without the link to the object it was read from (through which an assignment to the parameter would create a member in the caller's object)", keyHas("copy Value", "copy-on-insert ExprCall.Args", "copy-flag-"), c09R3)
 	sentinelIdentity(c, "R6")
 	if es := c.P.LangFunc("(*Evaluator).evalStatement"); es != nil {
 		c.shared("R5", "C07/R4", "a call yields the value of the executed return statement: the return arm stores the value in the slot and raises errReturn, only callFunction reads the slot", keyHas("return-"), func(s *Ctx) { c07Return(s, es) })
